@@ -1,5 +1,9 @@
 //! C15: ToUnicode CMaps decode text as the CMap defines (bounded: CMaps generated from every sequence of <= 3
 //! definitions over a pool, every sectioning, two white-space styles; oracle = "last definition covering the code wins").
+//! A definition carries its own code length: besides the CMaps whose codes all have one length, the family holds the
+//! CMaps that map codes of two or three different lengths (prefix-free code spaces, so a byte string has one reading),
+//! and the code strings are every sequence of <= 3 mapped codes (any order, repetition, any succession of lengths),
+//! not only the ascending enumeration of the mapped codes.
 #![allow(dead_code)]
 use crate::common::*;
 use crate::gen::*;
@@ -17,8 +21,14 @@ pub enum Def {
 fn base(code_len: usize) -> u32 { match code_len { 1 => 0x10, 2 => 0x0110, 3 => 0x81_40A0, _ => 0x8EA1_A1A0 } }
 fn code_bytes(code: u32, code_len: usize) -> Vec<u8> { code.to_be_bytes()[4 - code_len..].to_vec() }
 
-fn pool(code_len: usize) -> Vec<Def> {
-    let b = base(code_len);
+/// bases of the CMaps that mix code lengths: the first bytes <10>..<15>, <01>, <81>, <8E> tell the lengths apart (prefix-free
+/// code spaces), and the tail of every longer code is itself a shorter mapped code (<81 01 10> ends in <01 10> ends in <10>),
+/// so a decoder that loses the code boundaries produces other mapped characters rather than nothing
+fn mbase(code_len: usize) -> u32 { match code_len { 1 => 0x10, 2 => 0x0110, 3 => 0x81_0110, _ => 0x8E81_0110 } }
+
+fn pool(code_len: usize) -> Vec<Def> { pool_at(base(code_len)) }
+
+fn pool_at(b: u32) -> Vec<Def> {
     vec![
         Def::Char(b + 2, vec![0x0041]),
         Def::Char(b + 3, vec![0xD83D, 0xDE00]),                       // surrogate pair -> one character
@@ -35,10 +45,11 @@ fn pool(code_len: usize) -> Vec<Def> {
     ]
 }
 
-/// reference semantics: the last definition that covers the code
-fn lookup(defs: &[Def], code: u32) -> Option<Vec<u16>> {
+/// reference semantics: the last definition of that code length that covers the code
+fn lookup(defs: &[Def], lens: &[usize], code_len: usize, code: u32) -> Option<Vec<u16>> {
     let mut r = None;
-    for d in defs {
+    for (d, l) in defs.iter().zip(lens) {
+        if *l != code_len { continue; }
         match d {
             Def::Char(c, u) if *c == code => r = Some(u.clone()),
             Def::RangeStr(lo, hi, u) if *lo <= code && code <= *hi => { let mut v = u.clone(); let l = v.len() - 1; v[l] = v[l].wrapping_add((code - lo) as u16); r = Some(v); }
@@ -52,12 +63,24 @@ fn lookup(defs: &[Def], code: u32) -> Option<Vec<u16>> {
 fn hexu(u: &[u16]) -> String { u.iter().map(|x| format!("{:04X}", x)).collect() }
 fn hexc(c: u32, len: usize) -> String { format!("{:0w$X}", c, w = 2 * len) }
 
+/// code space ranges: one code length -> the whole space of that length; several lengths -> one range per length around
+/// `mbase` (only the last byte varies, the first bytes differ between the lengths: prefix free)
+fn codespace(lens: &[usize]) -> Vec<(u32, u32, usize)> {
+    let mut ls: Vec<usize> = lens.to_vec(); ls.sort(); ls.dedup();
+    if ls.len() == 1 { return vec![(0, (0xFFFF_FFFFu64 >> (32 - 8 * ls[0])) as u32, ls[0])]; }
+    ls.into_iter().map(|l| (mbase(l) & !0x0F, mbase(l) | 0x0F, l)).collect()
+}
+
 /// render with `sectioning`: bit k set = definition k+1 starts a new section even if it has the same kind as definition k
-fn render(defs: &[Def], code_len: usize, sectioning: u32, style: usize) -> Vec<u8> {
+/// (a section may hold codes of different lengths)
+fn render(defs: &[Def], lens: &[usize], sectioning: u32, style: usize) -> Vec<u8> {
     let nl = if style == 0 { "\n" } else { "\r\n" };
     let sp = if style == 0 { " " } else { "  " };
     let mut s = String::new();
-    s.push_str(&format!("/CIDInit /ProcSet findresource begin{nl}12 dict begin{nl}begincmap{nl}/CIDSystemInfo << /Registry (Adobe) /Ordering (UCS) /Supplement 0 >> def{nl}/CMapName /Adobe-Identity-UCS def{nl}/CMapType 2 def{nl}1 begincodespacerange{nl}<{}>{sp}<{}>{nl}endcodespacerange{nl}", hexc(0, code_len), hexc((0xFFFF_FFFFu64 >> (32 - 8 * code_len)) as u32, code_len)));
+    let cs = codespace(lens);
+    s.push_str(&format!("/CIDInit /ProcSet findresource begin{nl}12 dict begin{nl}begincmap{nl}/CIDSystemInfo << /Registry (Adobe) /Ordering (UCS) /Supplement 0 >> def{nl}/CMapName /Adobe-Identity-UCS def{nl}/CMapType 2 def{nl}{} begincodespacerange{nl}", cs.len()));
+    for (lo, hi, l) in &cs { s.push_str(&format!("<{}>{sp}<{}>{nl}", hexc(*lo, *l), hexc(*hi, *l))); }
+    s.push_str(&format!("endcodespacerange{nl}"));
     let kind = |d: &Def| matches!(d, Def::Char(..));
     let mut i = 0;
     while i < defs.len() {
@@ -65,7 +88,8 @@ fn render(defs: &[Def], code_len: usize, sectioning: u32, style: usize) -> Vec<u
         while j + 1 < defs.len() && kind(&defs[j + 1]) == kind(&defs[i]) && (sectioning >> j) & 1 == 0 { j += 1; }
         let n = j - i + 1;
         if kind(&defs[i]) { s.push_str(&format!("{} beginbfchar{nl}", n)); } else { s.push_str(&format!("{} beginbfrange{nl}", n)); }
-        for d in &defs[i..=j] {
+        for (d, code_len) in defs[i..=j].iter().zip(&lens[i..=j]) {
+            let code_len = *code_len;
             match d {
                 Def::Char(c, u) => s.push_str(&format!("<{}>{sp}<{}>{nl}", hexc(*c, code_len), hexu(u))),
                 Def::RangeStr(lo, hi, u) => s.push_str(&format!("<{}>{sp}<{}>{sp}<{}>{nl}", hexc(*lo, code_len), hexc(*hi, code_len), hexu(u))),
@@ -79,73 +103,147 @@ fn render(defs: &[Def], code_len: usize, sectioning: u32, style: usize) -> Vec<u
     s.into_bytes()
 }
 
-fn decode(cmap: &[u8], bytes: &[u8]) -> Result<String, String> {
-    let mut d = Document::with_version("1.5");
-    let sid = d.add_object(Stream::new(Dictionary::new(), cmap.to_vec()));
-    let mut font = Dictionary::new();
-    font.set("Type", name(b"Font")); font.set("Subtype", name(b"Type0")); font.set("Encoding", name(b"Identity-H")); font.set("ToUnicode", Object::Reference(sid));
-    let enc = font.get_font_encoding(&d).map_err(|e| format!("CMap rejected: {}", e))?;
-    enc.bytes_to_string(bytes).map_err(|e| e.to_string())
+/// one mapped code: its length, value, bytes and the text the CMap defines for it
+struct Mapped { len: usize, code: u32, bytes: Vec<u8>, want: String }
+
+fn show_codes(seq: &[&Mapped]) -> String {
+    format!("{} (code lengths {})", seq.iter().map(|m| format!("<{}>", hexc(m.code, m.len))).collect::<Vec<_>>().join(" "), seq.iter().map(|m| m.len.to_string()).collect::<Vec<_>>().join(","))
 }
 
-pub fn check(defs: &[Def], code_len: usize, sectioning: u32, style: usize) -> Result<(), (String, String)> {
-    let cmap = render(defs, code_len, sectioning, style);
-    let base: u32 = base(code_len);
-    let mut all_bytes = vec![];
-    let mut all_expected = String::new();
-    for code in base..base + 6 {
-        let Some(units) = lookup(defs, code) else { continue };
+/// the definitions as CMap lines (hexadecimal, as in the stream), in definition order
+fn show_defs(defs: &[Def], lens: &[usize]) -> String {
+    defs.iter().zip(lens).map(|(d, l)| match d {
+        Def::Char(c, u) => format!("bfchar <{}> <{}>", hexc(*c, *l), hexu(u)),
+        Def::RangeStr(lo, hi, u) => format!("bfrange <{}> <{}> <{}>", hexc(*lo, *l), hexc(*hi, *l), hexu(u)),
+        Def::RangeArr(lo, hi, a) => format!("bfrange <{}> <{}> [{}]", hexc(*lo, *l), hexc(*hi, *l), a.iter().map(|u| format!("<{}>", hexu(u))).collect::<Vec<_>>().join(" ")),
+    }).collect::<Vec<_>>().join("; ")
+}
+
+/// `max_seq`: every sequence of 2..=max_seq mapped codes is decoded as one string (besides every code alone and all codes in a row)
+pub fn check(defs: &[Def], lens: &[usize], sectioning: u32, style: usize, max_seq: usize) -> Result<(), (String, String)> {
+    if lens.len() != defs.len() || lens.iter().any(|l| !(1..=4).contains(l)) { return Err(("oracle".into(), "one code length in 1..=4 per definition expected".into())); }
+    let cmap = render(defs, lens, sectioning, style);
+    // the mapped codes, by the reference semantics, in the order (length, code)
+    let mut cand: Vec<(usize, u32)> = vec![];
+    for (d, l) in defs.iter().zip(lens) {
+        let (lo, hi) = match d { Def::Char(c, _) => (*c, *c), Def::RangeStr(lo, hi, _) | Def::RangeArr(lo, hi, _) => (*lo, *hi) };
+        if hi < lo || hi - lo > 64 { return Err(("oracle".into(), "definition outside of the bounded family".into())); }
+        for c in lo..=hi { cand.push((*l, c)); }
+    }
+    cand.sort(); cand.dedup();
+    let mut mapped: Vec<Mapped> = vec![];
+    for (len, code) in cand {
+        let Some(units) = lookup(defs, lens, len, code) else { continue };
         let want = String::from_utf16(&units).map_err(|_| ("oracle".to_string(), "pool produced an invalid UTF-16 target".to_string()))?;
-        let bytes: Vec<u8> = code_bytes(code, code_len);
-        match guarded(std::panic::AssertUnwindSafe(|| decode(&cmap, &bytes))) {
-            Err(p) => return Err(("no-panic".into(), p)),
-            Ok(Err(e)) => return Err(("decodes".into(), format!("code <{}>: {}", hexc(code, code_len), e))),
-            Ok(Ok(got)) => if got != want { return Err(("code-maps-to-last-definition".into(), format!("code <{}> should decode to {:?} (last covering definition), decoded {:?}; definitions {:?}", hexc(code, code_len), want, got, defs))); }
-        }
-        all_bytes.extend_from_slice(&bytes); all_expected.push_str(&want);
+        mapped.push(Mapped { len, code, bytes: code_bytes(code, len), want });
     }
-    match guarded(std::panic::AssertUnwindSafe(|| decode(&cmap, &all_bytes))) {
-        Ok(Ok(got)) if got == all_expected => Ok(()),
-        other => Err(("string-of-mapped-codes".into(), format!("all mapped codes in a row should decode to {:?}, got {:?}", all_expected, other))),
+    let current = std::cell::RefCell::new(String::new());
+    let session = || -> Result<(), (String, String)> {
+        // the library parses the CMap once; every string below is decoded with that one encoding
+        let mut d = Document::with_version("1.5");
+        let sid = d.add_object(Stream::new(Dictionary::new(), cmap.to_vec()));
+        let mut font = Dictionary::new();
+        font.set("Type", name(b"Font")); font.set("Subtype", name(b"Type0")); font.set("Encoding", name(b"Identity-H")); font.set("ToUnicode", Object::Reference(sid));
+        *current.borrow_mut() = "reading the CMap".into();
+        let enc = font.get_font_encoding(&d).map_err(|e| ("decodes".to_string(), format!("CMap rejected: {}; definitions {}", e, show_defs(defs, lens))))?;
+        let decode = |seq: &[&Mapped]| -> Result<(String, String), (String, String)> {
+            *current.borrow_mut() = format!("decoding {}", show_codes(seq));
+            let bytes: Vec<u8> = seq.iter().flat_map(|m| m.bytes.iter().copied()).collect();
+            let want: String = seq.iter().map(|m| m.want.as_str()).collect();
+            let got = enc.bytes_to_string(&bytes).map_err(|e| ("decodes".to_string(), format!("codes {}: {}", show_codes(seq), e)))?;
+            Ok((want, got))
+        };
+        for m in &mapped {
+            let (want, got) = decode(&[m])?;
+            if got != want { return Err(("code-maps-to-last-definition".into(), format!("code <{}> should decode to {:?} (last covering definition), decoded {:?}; definitions {}", hexc(m.code, m.len), want, got, show_defs(defs, lens)))); }
+        }
+        let all: Vec<&Mapped> = mapped.iter().collect();
+        let (want, got) = decode(&all)?;
+        if got != want { return Err(("string-of-mapped-codes".into(), format!("all mapped codes in a row should decode to {:?}, got {:?}; definitions {}", want, got, show_defs(defs, lens)))); }
+        // every sequence of 2..=max_seq mapped codes, shortest first (the first failure is a smallest one)
+        let m = mapped.len();
+        for k in 2..=max_seq {
+            if m == 0 { break; }
+            let mut idx = vec![0usize; k];
+            loop {
+                let seq: Vec<&Mapped> = idx.iter().map(|&i| &mapped[i]).collect();
+                let (want, got) = decode(&seq)?;
+                if got != want {
+                    return Err(("code-sequence-decodes-code-by-code".into(), format!("the string of codes {} should decode to {:?} (each code by its last covering definition), decoded {:?}; definitions {}", show_codes(&seq), want, got, show_defs(defs, lens))));
+                }
+                let (mut p, mut wrapped) = (k, true);
+                while p > 0 { p -= 1; idx[p] += 1; if idx[p] < m { wrapped = false; break; } idx[p] = 0; }
+                if wrapped { break; }
+            }
+        }
+        Ok(())
+    };
+    match guarded(std::panic::AssertUnwindSafe(session)) {
+        Err(p) => Err(("no-panic".into(), format!("{} while {}; definitions {}", p, current.borrow(), show_defs(defs, lens)))),
+        Ok(r) => r,
     }
 }
 
-fn defs_json(defs: &[Def], code_len: usize, sectioning: u32, style: usize) -> Value {
-    json!({"code_len": code_len, "sectioning": sectioning, "style": style, "defs": defs.iter().map(|d| match d {
+fn defs_json(defs: &[Def], lens: &[usize], sectioning: u32, style: usize, max_seq: usize) -> Value {
+    json!({"lens": lens, "sectioning": sectioning, "style": style, "max_seq": max_seq, "defs": defs.iter().map(|d| match d {
         Def::Char(c, u) => json!({"k": "char", "c": c, "u": u}), Def::RangeStr(lo, hi, u) => json!({"k": "str", "lo": lo, "hi": hi, "u": u}), Def::RangeArr(lo, hi, a) => json!({"k": "arr", "lo": lo, "hi": hi, "a": a}) }).collect::<Vec<_>>()})
 }
-fn defs_from(v: &Value) -> (Vec<Def>, usize, u32, usize) {
+fn defs_from(v: &Value) -> (Vec<Def>, Vec<usize>, u32, usize, usize) {
     let u16s = |x: &Value| -> Vec<u16> { x.as_array().cloned().unwrap_or_default().iter().map(|y| y.as_u64().unwrap_or(0) as u16).collect() };
-    let defs = v["defs"].as_array().cloned().unwrap_or_default().iter().map(|d| match d["k"].as_str() {
+    let defs: Vec<Def> = v["defs"].as_array().cloned().unwrap_or_default().iter().map(|d| match d["k"].as_str() {
         Some("char") => Def::Char(d["c"].as_u64().unwrap() as u32, u16s(&d["u"])),
         Some("str") => Def::RangeStr(d["lo"].as_u64().unwrap() as u32, d["hi"].as_u64().unwrap() as u32, u16s(&d["u"])),
         _ => Def::RangeArr(d["lo"].as_u64().unwrap() as u32, d["hi"].as_u64().unwrap() as u32, d["a"].as_array().cloned().unwrap_or_default().iter().map(u16s).collect()),
     }).collect();
-    (defs, v["code_len"].as_u64().unwrap_or(2) as usize, v["sectioning"].as_u64().unwrap_or(0) as u32, v["style"].as_u64().unwrap_or(0) as usize)
+    // records written before the code length became a property of the definition have one "code_len" and no "max_seq"
+    let lens: Vec<usize> = match v["lens"].as_array() {
+        Some(a) => a.iter().map(|x| x.as_u64().unwrap_or(2) as usize).collect(),
+        None => vec![v["code_len"].as_u64().unwrap_or(2) as usize; defs.len()],
+    };
+    (defs, lens, v["sectioning"].as_u64().unwrap_or(0) as u32, v["style"].as_u64().unwrap_or(0) as usize, v["max_seq"].as_u64().unwrap_or(1) as usize)
 }
 
+const MAX_SEQ: usize = 3;
+/// the definitions used for the three-definition CMaps with mixed code lengths in the quick tier: bfchar surrogate pair,
+/// whole single-unit range, multi-unit range, array range with multi-unit / astral elements, bfchar single unit
+const QUICK_MIXED: [usize; 5] = [1, 3, 5, 8, 11];
+
 pub fn run(thorough: bool) -> Report {
-    let mut rep = Report::new("code lengths {1, 2, 3, 4} (3- and 4-byte codes with non-zero leading bytes) x every sequence of 1..3 definitions (with repetition, order significant) over a pool of 12 (bfchar single / surrogate pair / two units; bfrange with single unit, multi-unit, astral and array targets; overlapping, nested, adjacent and coalescable ranges) x every sectioning of the sequence x 2 white-space/EOL styles; every mapped code alone and all mapped codes in one string", true);
-    let _ = thorough;
-    let mut cases = vec![];
+    let bound = format!("CMaps: (a) one code length in {{1, 2, 3, 4}} (3- and 4-byte codes with non-zero leading bytes, code space = all codes of that length) x every sequence of 1..3 definitions (with repetition, order significant) over a pool of 12 (bfchar single / surrogate pair / two units; bfrange with single unit, multi-unit, astral and array targets; overlapping, nested, adjacent and coalescable ranges); (b) mixed code lengths: every sequence of 2 definitions over the pool of 12 and every sequence of 3 definitions over {}, each x every assignment of a code length in {{1, 2, 3, 4}} to each definition that uses at least two lengths (12 resp. 60 assignments; prefix-free code spaces <10>..<1F>, <0110>..<011F>, <810110>..<81011F>, <8E810110>..<8E81011F>, one codespacerange per length used, the tail of a longer code is a shorter mapped code; a section may hold codes of several lengths); all x every sectioning of the sequence x 2 white-space/EOL styles. Code strings per CMap: every mapped code alone, all mapped codes in one string, and every sequence of 2 and of 3 mapped codes (with repetition, every order, hence every succession of code lengths: equal, increasing, decreasing, long-short-long, ...)", if thorough { "the whole pool of 12" } else { "5 of the pool (bfchar single, bfchar surrogate pair, whole single-unit range, multi-unit range, array range; the thorough tier takes the whole pool)" });
+    let mut rep = Report::new(&bound, true);
+    let mut cases: Vec<(Vec<Def>, Vec<usize>)> = vec![];
     for code_len in [2usize, 1, 3, 4] {
         let p = pool(code_len);
-        for a in 0..p.len() { cases.push((vec![p[a].clone()], code_len)); for b in 0..p.len() { cases.push((vec![p[a].clone(), p[b].clone()], code_len)); for c in 0..p.len() { cases.push((vec![p[a].clone(), p[b].clone(), p[c].clone()], code_len)); } } }
+        for a in 0..p.len() { cases.push((vec![p[a].clone()], vec![code_len])); for b in 0..p.len() { cases.push((vec![p[a].clone(), p[b].clone()], vec![code_len; 2])); for c in 0..p.len() { cases.push((vec![p[a].clone(), p[b].clone(), p[c].clone()], vec![code_len; 3])); } } }
     }
-    let results: Vec<(usize, Vec<(String, String, Value)>, u64)> = cases.par_iter().enumerate().map(|(i, (defs, code_len))| {
+    // mixed code lengths: the definition k of the pool at length l is pool_at(mbase(l))[k]
+    let mp: Vec<Vec<Def>> = (0..=4usize).map(|l| if l == 0 { vec![] } else { pool_at(mbase(l)) }).collect();
+    let n = mp[1].len();
+    let three: Vec<usize> = if thorough { (0..n).collect() } else { QUICK_MIXED.to_vec() };
+    for la in 1..=4usize { for lb in 1..=4usize {
+        if la != lb { for a in 0..n { for b in 0..n { cases.push((vec![mp[la][a].clone(), mp[lb][b].clone()], vec![la, lb])); } } }
+    } }
+    for la in 1..=4usize { for lb in 1..=4usize {
+        for lc in 1..=4usize {
+            if la == lb && lb == lc { continue; }
+            for &a in &three { for &b in &three { for &c in &three { cases.push((vec![mp[la][a].clone(), mp[lb][b].clone(), mp[lc][c].clone()], vec![la, lb, lc])); } } }
+        }
+    } }
+    let results: Vec<(usize, Vec<(String, String, Value)>, u64)> = cases.par_iter().enumerate().map(|(i, (defs, lens))| {
         let mut f = vec![]; let mut n = 0;
         for sectioning in 0..(1u32 << (defs.len() - 1)) { for style in 0..2 {
             n += 1;
-            if let Err((o, d)) = check(defs, *code_len, sectioning, style) { f.push((o, d, defs_json(defs, *code_len, sectioning, style))); }
+            if let Err((o, d)) = check(defs, lens, sectioning, style, MAX_SEQ) { f.push((o, d, defs_json(defs, lens, sectioning, style, MAX_SEQ))); }
         } }
         (i, f, n)
     }).collect();
     for (_, f, n) in results { rep.evaluations += n; rep.nontrivial += n; for (o, d, inp) in f { rep.fail(&o, d.clone(), inp, d); } }
-    rep.sample(String::from_utf8_lossy(&render(&[pool(2)[7].clone(), pool(2)[0].clone(), pool(2)[5].clone()], 2, 1, 0)).chars().skip(250).take(260).collect());
+    rep.sample(String::from_utf8_lossy(&render(&[pool(2)[7].clone(), pool(2)[0].clone(), pool(2)[5].clone()], &[2, 2, 2], 1, 0)).chars().skip(250).take(260).collect());
+    rep.sample(String::from_utf8_lossy(&render(&[mp[2][3].clone(), mp[1][0].clone(), mp[3][1].clone()], &[2, 1, 3], 0, 0)).chars().skip(185).take(330).collect());
     rep
 }
 
 pub fn replay(v: &Value) -> Result<(), String> {
-    let (defs, code_len, sectioning, style) = defs_from(v);
-    check(&defs, code_len, sectioning, style).map_err(|e| format!("{}: {}", e.0, e.1))
+    let (defs, lens, sectioning, style, max_seq) = defs_from(v);
+    check(&defs, &lens, sectioning, style, max_seq).map_err(|e| format!("{}: {}", e.0, e.1))
 }
